@@ -360,16 +360,31 @@ func (w *world) runC15(or *oracles) {
 	for _, i := range w.conc.finished {
 		order = append(order, i)
 	}
-	sort.SliceStable(order, func(a, b int) bool {
-		sa, oka := w.conc.lockSeq[names[order[a]]]
-		sb, okb := w.conc.lockSeq[names[order[b]]]
-		if oka && okb {
-			return sa < sb
+	pos := map[int]int{}
+	for k, i := range order {
+		pos[i] = k
+	}
+	key := func(i int) int {
+		if s, ok := w.conc.lockSeq[names[i]]; ok {
+			return s
 		}
-		return false
-	})
+		return 1000000 + pos[i] // never took the lock (skipped): after the others, in completion order
+	}
+	sort.SliceStable(order, func(a, b int) bool { return key(order[a]) < key(order[b]) })
 	var last *reply
 	for _, i := range order {
+		if os.Getenv("VERIF_TRACE") != "" && reps[i] != nil {
+			desc := fmt.Sprintf("TRACE   apply %s lockseq=%d skipped=%v err=%v", names[i], w.conc.lockSeq[names[i]], reps[i].skipped, reps[i].err)
+			if a := reps[i].adjust; a != nil && a.Linux != nil && a.Linux.Resources != nil && a.Linux.Resources.Cpu != nil {
+				desc += fmt.Sprintf(" adjust(%s cpus=%q)", reps[i].target, a.Linux.Resources.Cpu.Cpus)
+			}
+			for _, u := range reps[i].updates {
+				if u.Linux != nil && u.Linux.Resources != nil && u.Linux.Resources.Cpu != nil {
+					desc += fmt.Sprintf(" update(%s cpus=%q)", u.ContainerId, u.Linux.Resources.Cpu.Cpus)
+				}
+			}
+			fmt.Fprintln(os.Stderr, desc)
+		}
 		if reps[i] != nil && !reps[i].skipped && !reps[i].crashed {
 			reps[i].pushed = w.conc.pushedBy[names[i]]
 			w.applyReply(reps[i])
